@@ -21,6 +21,7 @@ RULE = (
     "interior value stays within [min,max] of its 2d+1 input neighbourhood (8 eps slack), global extrema do not grow, ring cells "
     "bit-identical. Non-trivial: (a) viscous limit active or velocity non-zero, non-cubic grid; (b) field with an interior "
     "extremum (spikes/checkerboard/noise) and lambda >= 1e-3. Distinct = digest of case."
+    " Also nu = 0, the balanced regime (both limits within a drawn factor), thread counts 1..7, the maximum in the first/last flattened cells, viscosity / cfl changed on the live simulator between queries."
 )
 ASSUMPTIONS = ["viscosity >= 0 (inviscid nu = 0 included); velocities up to 2^20 in magnitude; finite inputs"]
 BUDGET_S = {"quick": 120.0, "thorough": 1800.0}
